@@ -69,6 +69,12 @@ def items(tier):
                 pars = [True] * len(g)
                 add({"g": g, "kinds": kinds, "pars": pars, "jobs": jobs, "fails": {}}, 1 if tier == "quick" else 2)
     if tier == "thorough":
+        for g in rungrid.graphs_upto((5,)):
+            out.append({"case": {"g": g, "kinds": ["cmd"] * 5, "pars": [True, True, False, True, True], "jobs": 2, "fails": {}}, "bound": 0})
+        for g in rungrid.graphs_upto((3,)):
+            for kinds in rungrid.kind_assignments(g, "all4"):
+                if any(k in ("cmd", "exp") for k in kinds):
+                    out.append({"case": {"g": g, "kinds": kinds, "pars": [k in ("cmd", "exp") for k in kinds], "jobs": 2, "fails": {}}, "bound": 1})
         for g in rungrid.graphs_upto((4,)):
             add({"g": g, "kinds": ["cmd"] * 4, "pars": [True] * 4, "jobs": 3, "fails": {}}, 1)
         for g in rungrid.graphs_upto((5,), shared_only_from=5):
